@@ -142,12 +142,46 @@ package s2
 // MaxResults must be at least 1 (documented requirement of the options)
 //@ spec func vcEQ(e *EdgeQuery) bool = e != nil && e.opts != nil && e.opts.maxResults >= 1
 
-//@ func (e *EdgeQuery) findEdgesInternal(target distanceTarget, opts *queryOptions)
-//@   assumed "the search itself (float distances, queue): outside the subset; it installs opts and rewrites the per-call scratch fields only"
-//@   requires e != nil && opts != nil
-//@   modifies e.target, e.opts, e.testedEdges, e.distanceLimit, e.results, e.useConservativeCellDistance, e.avoidDuplicates, e.indexNumEdges, e.indexNumEdgesLimit, e.indexCovering, e.indexCells, e.iter, e.initialCells, e.maxDistanceCovering
-//@   ensures e.opts == opts
+//@ func (e *EdgeQuery) findEdgesBruteForce()
+//@   assumed "the brute-force scan (float distances through the target interface): it only appends to the results of this call"
+//@   requires e != nil
+//@   modifies e.results, e.distanceLimit
+//@   ensures [limit] old(e.distanceLimit) != nil ==> e.distanceLimit != nil
+//@   ensures [results] vcArr(e.results) == old(vcArr(e.results)) || vcFreshSlice(e.results)
 //@   ensures forall k int :: 0 <= k && k < len(e.results) ==> e.results[k].distance != nil
+
+//@ func (e *EdgeQuery) findEdgesOptimized()
+//@   assumed "the optimized search (queue, covering, float distances): it only appends to the results of this call and rewrites its own scratch"
+//@   requires e != nil
+//@   modifies e.results, e.distanceLimit, e.indexCovering, e.indexCells, e.iter, e.initialCells, e.maxDistanceCovering, e.testedEdges{*}
+//@   ensures [limit] old(e.distanceLimit) != nil ==> e.distanceLimit != nil
+//@   ensures [results] vcArr(e.results) == old(vcArr(e.results)) || vcFreshSlice(e.results)
+//@   ensures forall k int :: 0 <= k && k < len(e.results) ==> e.results[k].distance != nil
+
+//@ func (e *EdgeQuery) addResult(r EdgeQueryResult)
+//@   assumed "appends one result and may tighten the distance limit (float)"
+//@   requires e != nil
+//@   modifies e.results, e.distanceLimit
+//@   ensures [limit] old(e.distanceLimit) != nil ==> e.distanceLimit != nil
+//@   ensures [results] vcArr(e.results) == old(vcArr(e.results)) || vcFreshSlice(e.results)
+//@   ensures (forall k int :: 0 <= k && k < old(len(e.results)) ==> old(e.results)[k].distance != nil) && r.distance != nil ==> (forall k int :: 0 <= k && k < len(e.results) ==> e.results[k].distance != nil)
+
+//@ func (s *ShapeIndex) NumEdgesUpTo(limit int) int
+//@   assumed "read-only count of edges over the shapes of the index"
+//@   requires s != nil
+
+// every call starts from fresh per-call scratch state: the result slice and the tested-edge set are allocated by this call
+// on every path, including the zero-distance-limit early exits (answers depend on this call only)
+//@ func (e *EdgeQuery) findEdgesInternal(target distanceTarget, opts *queryOptions)
+//@   ifacenonnil
+//@   requires e != nil && opts != nil && target != nil && e.index != nil
+//@   modifies e.target, e.opts, e.testedEdges, e.distanceLimit, e.results, e.useConservativeCellDistance, e.avoidDuplicates, e.indexNumEdges, e.indexNumEdgesLimit, e.indexCovering, e.indexCells, e.iter, e.initialCells, e.maxDistanceCovering
+//@   noframe
+//@   ensures [opts] e.opts == opts
+//@   ensures [fresh-results] vcFreshSlice(e.results)
+//@   ensures [distances] forall k int :: 0 <= k && k < len(e.results) ==> e.results[k].distance != nil
+//@   ensures [fresh-tested-set] e.testedEdges != nil && !vcSame(e.testedEdges, old(e.testedEdges))
+//@   loop 1: invariant [scratch] vcFreshSlice(e.results) && e.distanceLimit != nil && e.opts == opts && e.testedEdges != nil && !vcSame(e.testedEdges, old(e.testedEdges)) && e.target == target && (forall k int :: 0 <= k && k < len(e.results) ==> e.results[k].distance != nil)
 
 //@ func sortAndUniqueResults(results []EdgeQueryResult) []EdgeQueryResult
 //@   assumed "verified under C08"
